@@ -5,7 +5,7 @@
    on the dyadic inputs; tied to the compiled binary by the correspondence run (harness/props/C11.py). *)
 From Coq Require Import ZArith List Bool.
 Import ListNotations.
-Require Import MD.Neigh.Model MD.Neigh.NeighborsProofs MD.Whole.Model MD.Whole.Proofs.
+Require Import MD.Neigh.Model MD.Neigh.NeighborsProofs MD.Whole.Model MD.Whole.Proofs MD.Whole.Walk MD.Gen.WholeWalk.
 Open Scope Z_scope.
 
 (* make_whole, whatever the bond list: every atom ends at its original position minus an integer combination
@@ -64,13 +64,43 @@ Theorem whole_any_order_refuted :
 Proof. exact whole_any_order_counterexample. Qed.
 Print Assumptions whole_any_order_refuted.
 
-(* Minimal repair = walk the bond graph parent-first (Model.tree_order).  PARTIAL: proved in certificate form --
-   for every walk that passes the executable check [walk_ok] (parent-ordered, made of bonds, joins both ends of
-   every bond under one root) and every system that can be made whole at all (sigma), EVERY bonded pair (ring
-   closures included) ends exactly at its displacement in the whole configuration: shorter than cn/cd and at its
-   minimum image.  Missing: the proof that [tree_order n bonds] passes [walk_ok] for every bond list
-   (coverage/termination of the traversal); the correspondence run evaluates [walk_ok] on every generated system. *)
-Theorem whole_fixed_order_partial : forall B cn cd xyz sg bonds out,
+(* REPAIR (committed in /repo: trajectory.py:_parent_first_bonds, modelled statement by statement as Model.pfb_walk:
+   depth-first from the lowest-numbered unplaced atom, emitting (placed atom, new atom)).  FULL statement, no side
+   condition on the bond graph: every system that can be made whole at all (sigma: lattice multipliers under which
+   every bond is shorter than cn/cd <= half of every diagonal cell entry, i.e. every molecule shorter than half the
+   cell) IS made whole -- every bonded pair, ring closures included, ends exactly at its displacement in the whole
+   configuration: shorter than cn/cd and at its minimum over all lattice images. *)
+Theorem whole_fixed_order : forall B cn cd xyz sg bonds,
+  box_ok B -> 0 < cd -> 0 <= cn -> half_width_ok B cn cd ->
+  (forall b, In b bonds -> (fst b < length xyz)%nat /\ (snd b < length xyz)%nat) ->
+  makes_whole B cn cd xyz sg bonds ->
+  forall bond, In bond bonds ->
+    let st := make_whole B (pfb_walk (length xyz) bonds) (init_state xyz) in
+    let d := vsub (st_pos st (snd bond)) (st_pos st (fst bond)) in
+    d = sigma_disp B xyz sg bond /\ norm2 d * (cd * cd) < cn * cn /\
+    forall k1 k2 k3, norm2 d <= norm2 (vsub d (lat B k1 k2 k3)).
+Proof. exact whole_fixed_order_full. Qed.
+Print Assumptions whole_fixed_order.
+
+(* what makes it work, for EVERY bond list with valid indices: the walk is parent-ordered, made of bonds, and joins
+   the two ends of every bond *)
+Theorem parent_first_walk_covers : forall n bonds,
+  (forall b, In b bonds -> (fst b < n)%nat /\ (snd b < n)%nat) ->
+  parent_ordered [] (pfb_walk n bonds) /\
+  (forall e, In e (pfb_walk n bonds) -> adj bonds (fst e) (snd e)) /\
+  (forall b, In b bonds -> conn (pfb_walk n bonds) (fst b) (snd b)).
+Proof. exact pfb_walk_ok. Qed.
+Print Assumptions parent_first_walk_covers.
+
+(* the traversal read off today's source of _parent_first_bonds by the translator (coq/Gen/WholeWalk.v, regenerated
+   on every run) is the one the model implements *)
+Theorem source_walk_is_modelled : gen_walk_spec = model_walk_spec.
+Proof. reflexivity. Qed.
+Print Assumptions source_walk_is_modelled.
+
+(* a caller-supplied sorted_bonds is used verbatim: for any walk that passes the executable check [walk_ok]
+   (parent-ordered, made of bonds, joins both ends of every bond under one root) the same conclusion holds *)
+Theorem whole_explicit_walk_certified : forall B cn cd xyz sg bonds out,
   box_ok B -> 0 < cd -> 0 <= cn -> half_width_ok B cn cd ->
   walk_ok (length xyz) bonds out = true ->
   makes_whole B cn cd xyz sg bonds ->
@@ -80,7 +110,21 @@ Theorem whole_fixed_order_partial : forall B cn cd xyz sg bonds out,
     d = sigma_disp B xyz sg bond /\ norm2 d * (cd * cd) < cn * cn /\
     forall k1 k2 k3, norm2 d <= norm2 (vsub d (lat B k1 k2 k3)).
 Proof. exact whole_certified_walk. Qed.
-Print Assumptions whole_fixed_order_partial.
+Print Assumptions whole_explicit_walk_certified.
+
+(* Topology.find_molecules (modelled as the function "connected components in order of their lowest atom"; the
+   Python traversal order is not modelled -- the partition is compared exactly on every generated topology):
+   the molecules partition the atoms 0..n-1, and two atoms share a molecule iff the bond graph connects them *)
+Theorem find_molecules_partition_connected : forall n bonds,
+  (forall b, In b bonds -> (fst b < n)%nat /\ (snd b < n)%nat) ->
+  let mols := find_molecules n bonds in
+  (forall a, (a < n)%nat -> exists m, In m mols /\ In a m) /\
+  NoDup (concat mols) /\
+  (forall m a, In m mols -> In a m -> (a < n)%nat) /\
+  (forall m a b, In m mols -> In a m -> In b m -> conn bonds a b) /\
+  (forall a b, conn bonds a b -> forall m, In m mols -> (In a m <-> In b m)).
+Proof. exact find_molecules_spec. Qed.
+Print Assumptions find_molecules_partition_connected.
 
 (* the repaired walk on the refutation witness *)
 Theorem whole_fixed_on_witness : forall bond, In bond w_bonds -> short_now 300 1 (make_whole_fix w_box w_bonds w_xyz) bond.
